@@ -6,5 +6,6 @@ Require ExtrOcamlBasic.
 From Pika Require Import Base.Conc Base.Agent Model.BarrierTree Model.Latch Model.Event Model.Once.
 Extraction Language OCaml.
 Extraction "m.ml" step b_tstep bar_init bar_locals bpc_site bpc_args
+  trx_tstep src_claims tr_init trx_locals
   latch_tstep latch_init latch_locals l_enabled
   e_tstep e_init e_locals e_enabled o_tstep o_init o_locals o_enabled nok nbegin nend.
